@@ -2,6 +2,12 @@ NOTES = ('Bounded-exhaustive model checking of the real implementation; see DESI
          'Known genuine defects are listed in known_findings.json.')
 NOT_APPLICABLE = {}
 CHECKS = {
+ 'C01': dict(engine='E3', design_ref='4/C01',
+    technique='exhaustive enumeration of all stacks over an 8-angle alphabet up to length 3 (quick) / 4 (thorough) x full product of thickness/material/offset/argument-form letters, real code vs tensor-rotation reference; differential edges between real executions',
+    text='Every laminate of the enumerated space is built with the real read_stack and all six reported matrices are compared entry-wise with an '
+         'independent tensor-rotation + Gauss-through-thickness reference; offset law, mirror-stack B=0, ply-order independence, theta->-theta and theta->theta+90 '
+         'are checked as edges between two real executions; symmetry and positive definiteness on every state.',
+    note='angles between the alphabet letters are reached only through the seeded generic letters (VERIF_SEED moves them); tolerance 1e-12 of the summand magnitude'),
  'C10': dict(engine='E3', design_ref='4/C10',
     technique='exhaustive enumeration (full products of index pairs x endpoint/mapping/flag alphabets) of the real C tables against exact rational polynomials',
     text='Every exported function of lib/src is called through ctypes for all 900 index pairs of all 17 integral families, '
